@@ -240,6 +240,16 @@ def digest_chunk(args: tuple) -> list:
             os.makedirs(dump, exist_ok=True)
             with open(os.path.join(dump, f'{sub}-{i}-{res["digest"][:12]}.json'), 'w') as f:
                 json.dump(res['events'], f)
+        if res['status'] == 'ok' and res['decisions'] is not None:
+            # replay machinery: the same spec driven by the *recorded* decision list instead of the PRNG
+            # must be the same execution
+            again = dict(spec)
+            again['decisions'] = list(res['decisions'])
+            res2 = runner.run_spec(again)
+            after_run()
+            if res2['digest'] != res['digest']:
+                res = dict(res)
+                res['digest'] = 'REPLAY-MISMATCH:' + res['digest'][:16] + '/' + res2['digest'][:16]
         row = [sub, i, res['digest'], res['status']]
         if extra:
             row.append(runner.sha([sorted(res['states']), res['interleaving'], sorted((k, v) for k, v in res['probes'].items() if not k.startswith('diag:')), sorted(res['faults'].items())])[:16])
